@@ -405,6 +405,7 @@ func TestVerifC09(t *testing.T) {
 	tw := vNewTraceWriter(os.Getenv("VERIF_TRACES"))
 	ntr := 0
 	for _, s := range scns {
+		fmt.Fprintf(os.Stderr, "VERIF-SCN %d\n", s.ID)
 		if s.Fail == "kth_all" {
 			// failure of the k-th write, for every k: count the writes of a failure-free run first
 			base := *s
